@@ -20,6 +20,9 @@ pub mod memory;
 pub mod mvcc;
 pub mod types;
 pub mod utils;
+// Verification hook: yield points between critical sections (off in every normal build).
+#[cfg(grafeodb_grafeo_verif)]
+pub mod verif;
 
 // The types you'll use most often
 pub use mvcc::{Version, VersionChain, VersionInfo};
